@@ -189,7 +189,8 @@ def harnesses(tier):
     pairs = [(['>=', '<='], []), ([':'], ['month']), (['>'], ['date:']), (['='], ['date=', 'month']), (['<', '>'], ['date:', 'month'])]
     hs += [Harness('modifiers[%s]' % '+'.join(a + d), h_shape(a, d), [ME + '_modifier_to_expr', MP + 'check_all_conditions']) for a, d in pairs]
     hs.append(Harness('_regex_call', h_regex_literal, [ME + '_regex_call']))
-    return hs
+    from props import C14_blocks
+    return hs + C14_blocks.harnesses(tier)
 
 
 ORACLES = [
